@@ -894,7 +894,9 @@ impl<'input, T: Input> Scanner<'input, T> {
             }
         }
 
-        if need_whitespace {
+        // The end of the input separates as well as a blank or a line break does (`?` as the
+        // last character of the stream is an explicit entry with an empty key and value).
+        if need_whitespace && !self.input.next_is_z() {
             Err(ScanError::new_str(self.mark(), "expected whitespace"))
         } else {
             Ok(())
